@@ -406,9 +406,11 @@ PROPERTY = {
     "explanation": "The headline (mean-field expectation value, full-CI eigenvalue, rotation invariance) is a floating-point statement about PySCF integrals and eigenvalues: no contract "
                    "within the verifier's reach decides it; it is covered by bounded native contract runs (tolerance 1e-6). What Tangelo owns around it is decided deductively: the "
                    "orbital partition of convert_frozen_orbitals (exhaustive over occupation patterns and frozen selections up to 4-5 orbitals), the electron bookkeeping "
-                   "n_alpha / n_beta for ALL electron numbers and spins (symbolic integers, z3), and freeze_mos' frame.",
+                   "n_alpha / n_beta for ALL electron numbers and spins (symbolic integers, z3), freeze_mos' frame, and the UHF frozen-core folding "
+                   "(_get_active_space_integrals_uhf): for EVERY value of the spin-resolved integrals (symbolic tensors) the folded integrals give every determinant the energy of the full integrals "
+                   "(polynomial identity, exact normal form) on each frozen / active selection of 3 orbitals per spin channel.",
     "bounds": {"quick": "7 molecule / frozen-orbital configurations (H2, H4 with frozen [0], [0,3], H4+ ROHF and UHF, LiH with 4 frozen) x 4 encodings x 2 orderings (every 2nd)", "thorough": "14 configurations, all"},
     "assumptions": ["PySCF integrals / SCF / FCI and numpy / scipy eigenvalues (tolerance 1e-6)", "sector selected through a number / spin penalty of weight 4 Ha mapped with the same encoding (C12)"],
     "trusted_base": ["tverif AST interpreter", "z3", "pyscf", "openfermion", "numpy"],
-    "technique": "bounded native contract checking for the energies (labelled exploration); contract-based deductive verification (AST symbolic execution + z3) for orbital partition and electron bookkeeping",
+    "technique": "bounded native contract checking for the energies (labelled exploration); contract-based deductive verification (AST symbolic execution + z3) for orbital partition, electron bookkeeping and the UHF frozen-core folding",
 }
